@@ -30,14 +30,22 @@ inductive Method where
   | cg | bicg (itol : Nat) | bicgstab | qmr
 
 /-- `solve_cg / solve_bicg / solve_bicgstab / solve_qmr (&self, b, x, max_iter, tol[, itol])`:
-    the three size guards common to all four methods (in the order of the source), the `itol`
-    guard of `solve_bicg`, then the iteration -/
+    the three size guards common to all four methods (in the order of the source), the first sparse
+    product (which panics on inconsistent storage), the `itol` guard of `solve_bicg`, then the
+    iteration -/
 def solveIter (s : Sp K) (m : Method) (b x0 : Array K) (maxIter : Nat) (tol : K)
     (norm2 : Array K → K) : Res (KOut K (Array K)) :=
   if s.rows ≠ b.size then .error .size
   else if s.rows ≠ s.cols then .error .size
   else if b.size ≠ x0.size then .error .size
-  else
+  else match Sp.multiply s x0 with
+  -- the first statement of every method forms `A x0`; on a storage whose arrays are inconsistent
+  -- (public fields, `from_vecs` validates nothing) that product panics. Whether a product of `s`
+  -- with a vector of the right length panics depends on `s` alone (the same `col_start`, `row_index`,
+  -- `val` reads and the same row bound in `multiply` and `transpose_multiply`), so this one test
+  -- stands for every product of the run; `arrOps` may then use total products.
+  | .error e => .error e
+  | .ok _ =>
     let o := arrOps s s.rows norm2
     match m with
     | .cg => .ok (Krylov.solveCG o b x0 maxIter tol)
